@@ -12,10 +12,12 @@ import (
 	"io"
 	"net"
 	"runtime"
+	"runtime/debug"
 	"sort"
 	"strings"
 	"sync"
 	"testing"
+	"time"
 
 	core "google.golang.org/grpc/credentials/alts/internal"
 	"google.golang.org/grpc/internal/verif/vk"
@@ -304,6 +306,7 @@ func c52Build(proto string, frame, dir int, writes []int) (st *c52Stream) {
 
 type c52ReadResult struct {
 	got      []byte
+	atErr    int // bytes delivered before the first error
 	errs     []string // every error returned, in order
 	firstErr string
 	panicked string
@@ -315,10 +318,19 @@ type c52ReadResult struct {
 // the given segments) to a fresh real reader conn and reads with buffers of rb
 // bytes until EOF (continuing a few times after a non-EOF error to see whether
 // anything else leaks out).
-func c52Read(proto string, frame, dir int, wire []byte, rb, pre int, cuts []int, expect int) (res c52ReadResult) {
+func c52Read(sc *c52Scratch, proto string, frame, dir int, wire []byte, rb, pre int, cuts []int, expect int) (res c52ReadResult) {
+	var rconn *conn
 	defer func() {
 		if p := recover(); p != nil {
 			res.panicked = fmt.Sprint(p)
+		}
+		// conn has no Close of its own: hand the read buffer back like an
+		// owner tearing the connection down would (keeps the shared dirty
+		// pool warm, so later conns start on used memory).
+		if rconn != nil && rconn.protectedHandle != nil && res.panicked == "" {
+			h := rconn.protectedHandle
+			rconn.protectedHandle, rconn.nextFrame, rconn.buf = nil, nil, nil
+			readBufPool.Put(h)
 		}
 	}()
 	if pre > len(wire) {
@@ -339,7 +351,13 @@ func c52Read(proto string, frame, dir int, wire []byte, rb, pre int, cuts []int,
 		res.errs = append(res.errs, res.firstErr)
 		return
 	}
-	buf := make([]byte, rb)
+	rconn, _ = c.(*conn)
+	if cap(sc.buf) < rb {
+		sc.buf = make([]byte, rb)
+	}
+	buf := sc.buf[:rb]
+	res.got = sc.got[:0]
+	defer func() { sc.got = res.got[:0] }()
 	afterErr, idle := 0, 0
 	maxCalls := 4*(expect/rb+1) + 4*len(wire)/1 + 64
 	for calls := 0; ; calls++ {
@@ -347,8 +365,10 @@ func c52Read(proto string, frame, dir int, wire []byte, rb, pre int, cuts []int,
 			res.stuck = true
 			break
 		}
-		for i := range buf {
-			buf[i] = 0xEE
+		if rb <= 64 {
+			for i := range buf {
+				buf[i] = 0xEE
+			}
 		}
 		n, err := c.Read(buf)
 		if n < 0 || n > len(buf) {
@@ -365,6 +385,7 @@ func c52Read(proto string, frame, dir int, wire []byte, rb, pre int, cuts []int,
 			res.errs = append(res.errs, err.Error())
 			if res.firstErr == "" {
 				res.firstErr = err.Error()
+				res.atErr = len(res.got)
 			}
 			if err == io.EOF {
 				break
@@ -397,6 +418,11 @@ func c52ErrClass(e string) string {
 		return "counter-exhausted"
 	}
 	return "other:" + e
+}
+
+// c52Scratch holds per-worker buffers reused between cases.
+type c52Scratch struct {
+	buf, got, wire []byte
 }
 
 // ------------------------------------------------------------- oracle ----
@@ -439,8 +465,8 @@ func c52FirstDiff(a, b []byte) int {
 }
 
 // c52CheckHonest: an untouched stream must be read back completely.
-func c52CheckHonest(st *c52Stream, rb, pre int, cuts []int) (*c52Fail, string) {
-	res := c52Read(st.proto, st.frame, st.dir, st.wire, rb, pre, cuts, len(st.pt))
+func c52CheckHonest(sc *c52Scratch, st *c52Stream, rb, pre int, cuts []int) (*c52Fail, string) {
+	res := c52Read(sc, st.proto, st.frame, st.dir, st.wire, rb, pre, cuts, len(st.pt))
 	switch {
 	case res.panicked != "":
 		return &c52Fail{"read-panic", "Read panicked: " + res.panicked}, ""
@@ -461,8 +487,8 @@ func c52CheckHonest(st *c52Stream, rb, pre int, cuts []int) (*c52Fail, string) {
 // is k (nothing of record k or later may be delivered unless `mayDeliver` says
 // how far a still-authentic prefix reaches); exempt = the touched byte is not
 // covered by any integrity mechanism of the format.
-func c52CheckTampered(st *c52Stream, wire []byte, rb, pre int, cuts []int, maxGood int, exempt bool) (*c52Fail, string) {
-	res := c52Read(st.proto, st.frame, st.dir, wire, rb, pre, cuts, len(st.pt))
+func c52CheckTampered(sc *c52Scratch, st *c52Stream, wire []byte, rb, pre int, cuts []int, maxGood int, exempt bool) (*c52Fail, string) {
+	res := c52Read(sc, st.proto, st.frame, st.dir, wire, rb, pre, cuts, len(st.pt))
 	switch {
 	case res.panicked != "":
 		return &c52Fail{"read-panic", "Read panicked on a tampered stream: " + res.panicked}, ""
@@ -480,15 +506,20 @@ func c52CheckTampered(st *c52Stream, wire []byte, rb, pre int, cuts []int, maxGo
 		}
 		return nil, "unauthenticated-header-byte-changed:rejected(" + c52ErrClass(res.firstErr) + ")"
 	}
-	if len(res.got) > maxGood {
-		return &c52Fail{"tampering-undetected", fmt.Sprintf("tampered stream: %d plaintext bytes delivered although only the first %d come from untouched records; errors %v", len(res.got), maxGood, res.errs)}, ""
-	}
 	if len(res.errs) == 0 {
 		return &c52Fail{"tampering-undetected", "tampered stream: no Read error at all"}, ""
 	}
+	if res.atErr > maxGood {
+		return &c52Fail{"tampering-undetected", fmt.Sprintf("tampered stream: %d plaintext bytes were delivered before the first Read error although only the first %d come from untouched records; errors %v", res.atErr, maxGood, res.errs)}, ""
+	}
 	cls := "rejected:" + c52ErrClass(res.firstErr)
-	if len(res.got) < maxGood {
+	if res.atErr < maxGood {
 		cls += ",earlier-records-withheld"
+	}
+	if len(res.got) > res.atErr {
+		// the conn stays usable after a failed Read and skips the refused
+		// record; whatever follows is still held to "true prefix" above
+		cls += ",later-authentic-records-delivered-after-the-error"
 	}
 	return nil, cls
 }
@@ -664,7 +695,9 @@ func c52Par(n int, f func(i int)) {
 func c52Roundtrip(t *c52Tally, g c52Group, work int64, callCap int) {
 	loc := c52NewLocal()
 	defer t.merge(loc)
+	sc := &c52Scratch{}
 	st := c52Build(g.proto, g.frame, g.dir, g.writes)
+	sc.got = make([]byte, 0, len(st.pt)+64)
 	base := c52Case{Kind: "roundtrip", Proto: g.proto, Frame: g.frame, Dir: g.dir, Writes: g.writes}
 	loc.evals++
 	if st.fail != "" {
@@ -685,6 +718,12 @@ func c52Roundtrip(t *c52Tally, g c52Group, work int64, callCap int) {
 		}
 		// cost of one read-back in byte-equivalents
 		per := int64(len(st.wire)) + 48*int64(calls) + 2048
+		cand := cand
+		if c52SubsetCount(len(cand), 1)*per > work && len(cand) > 24 {
+			// very long streams: cut candidates of the first two and the last record only
+			cand = append(append([]int(nil), cand[:16]...), cand[len(cand)-8:]...)
+			loc.extra["streams_x_rb_with_cut_candidates_limited_to_first_and_last_records"]++
+		}
 		k := 3
 		for k > 1 && c52SubsetCount(len(cand), k)*per > work {
 			k--
@@ -697,7 +736,7 @@ func c52Roundtrip(t *c52Tally, g c52Group, work int64, callCap int) {
 			if st.records() >= 2 || len(cuts) > 0 || pre > 0 {
 				loc.nontriv++
 			}
-			f, cls := c52CheckHonest(st, rb, pre, cuts)
+			f, cls := c52CheckHonest(sc, st, rb, pre, cuts)
 			if f != nil {
 				t.violation(c, f)
 				return
@@ -741,7 +780,8 @@ func c52Roundtrip(t *c52Tally, g c52Group, work int64, callCap int) {
 // c52Mutate applies a record-level or byte-level fault; it returns the new
 // wire, the number of plaintext bytes that untouched leading records carry, and
 // whether the touched byte is outside every integrity mechanism of the format.
-func c52Mutate(st *c52Stream, fault string, a, b int) (wire []byte, maxGood int, exempt bool, ok bool) {
+func c52Mutate(sc *c52Scratch, st *c52Stream, fault string, a, b int) (wire []byte, maxGood int, exempt bool, ok bool) {
+	wire = sc.wire[:0]
 	rec := func(i int) []byte { return st.wire[st.bounds[i]:st.bounds[i+1]] }
 	recOf := func(pos int) int {
 		k := sort.SearchInts(st.bounds, pos+1) - 1
@@ -753,7 +793,8 @@ func c52Mutate(st *c52Stream, fault string, a, b int) (wire []byte, maxGood int,
 		if a < 0 || a >= len(st.wire) {
 			return
 		}
-		wire = append([]byte(nil), st.wire...)
+		wire = append(wire, st.wire...)
+		sc.wire = wire
 		wire[a] ^= 1 << uint(b)
 		k := recOf(a)
 		o := a - st.bounds[k]
@@ -800,7 +841,7 @@ func c52Mutate(st *c52Stream, fault string, a, b int) (wire []byte, maxGood int,
 		if a < 0 || a >= len(st.wire) {
 			return
 		}
-		wire = append([]byte(nil), st.wire[:a]...)
+		wire = append(wire, st.wire[:a]...)
 		return wire, st.ptStart[recOf(a)], false, true
 	}
 	return
@@ -835,7 +876,9 @@ func c52FaultSegs(st *c52Stream, fault string, a int, wire []byte) [][]int {
 func c52Faults(t *c52Tally, g c52Group, rbs []int, truncStep int) {
 	loc := c52NewLocal()
 	defer t.merge(loc)
+	sc := &c52Scratch{}
 	st := c52Build(g.proto, g.frame, g.dir, g.writes)
+	sc.got = make([]byte, 0, len(st.pt)+64)
 	base := c52Case{Kind: "fault", Proto: g.proto, Frame: g.frame, Dir: g.dir, Writes: g.writes}
 	if st.fail != "" {
 		t.violation(base, &c52Fail{st.failKey, st.fail})
@@ -843,17 +886,18 @@ func c52Faults(t *c52Tally, g c52Group, rbs []int, truncStep int) {
 	}
 	loc.maxRecs, loc.maxStream = max(loc.maxRecs, st.records()), max(loc.maxStream, len(st.wire))
 	one := func(fault string, a, b int) {
-		wire, maxGood, exempt, ok := c52Mutate(st, fault, a, b)
+		wire, maxGood, exempt, ok := c52Mutate(sc, st, fault, a, b)
 		if !ok {
 			return
 		}
+		sc.wire = wire
 		for _, rb := range rbs {
 			for _, cuts := range c52FaultSegs(st, fault, a, wire) {
 				c := base
 				c.RB, c.Cuts, c.Fault, c.A, c.B = rb, cuts, fault, a, b
 				loc.evals++
 				loc.nontriv++
-				f, cls := c52CheckTampered(st, wire, rb, 0, cuts, maxGood, exempt)
+				f, cls := c52CheckTampered(sc, st, wire, rb, 0, cuts, maxGood, exempt)
 				if f != nil {
 					t.violation(c, f)
 					continue
@@ -982,7 +1026,7 @@ func c52SealToWrap(proto string, dir int) (fail string, sealed int) {
 	}
 	// the wire must hold exactly the 256 sealed records and they must read back
 	wire := pipe.out
-	res := c52Read(proto, 0, dir, wire, 4096, 0, nil, len(pt))
+	res := c52Read(&c52Scratch{}, proto, 0, dir, wire, 4096, 0, nil, len(pt))
 	if !c52Prefix(res.got, pt) {
 		return fmt.Sprintf("%s: after exhausting the counter the peer read wrong plaintext (first difference at %d)", proto, c52FirstDiff(res.got, pt)), sealed
 	}
@@ -1021,14 +1065,14 @@ func c52ReplayCase(t *c52Tally, c c52Case) {
 	var f *c52Fail
 	var cls string
 	if c.Kind == "fault" {
-		wire, maxGood, exempt, ok := c52Mutate(st, c.Fault, c.A, c.B)
+		wire, maxGood, exempt, ok := c52Mutate(&c52Scratch{}, st, c.Fault, c.A, c.B)
 		if !ok {
 			t.r.EngineError("replay: fault %s(%d,%d) not applicable", c.Fault, c.A, c.B)
 			return
 		}
-		f, cls = c52CheckTampered(st, wire, c.RB, c.Pre, c.Cuts, maxGood, exempt)
+		f, cls = c52CheckTampered(&c52Scratch{}, st, wire, c.RB, c.Pre, c.Cuts, maxGood, exempt)
 	} else {
-		f, cls = c52CheckHonest(st, c.RB, c.Pre, c.Cuts)
+		f, cls = c52CheckHonest(&c52Scratch{}, st, c.RB, c.Pre, c.Cuts)
 	}
 	fmt.Printf("replay %s -> %s\n", c.key(c.Kind), cls)
 	if f != nil {
@@ -1078,6 +1122,8 @@ func TestVerif_C52_ALTS(t *testing.T) {
 		return
 	}
 
+	defer debug.SetGCPercent(debug.SetGCPercent(400))
+	t0 := time.Now()
 	thorough := r.Thorough()
 	// ---- honest round trips ----
 	var frames []int
@@ -1115,8 +1161,8 @@ func TestVerif_C52_ALTS(t *testing.T) {
 			}
 		}
 	}
-	work := int64(r.Pick(24<<20, 768<<20))
-	callCap := r.Pick(30000, 300000)
+	work := int64(r.Pick(8<<20, 96<<20))
+	callCap := r.Pick(26000, 300000)
 	var mine []c52Group
 	for i, g := range groups {
 		if r.Mine(i) {
@@ -1138,6 +1184,7 @@ func TestVerif_C52_ALTS(t *testing.T) {
 		r.Cap(c52P, "time budget hit during the honest round-trip leg")
 	}
 	honestEvals := tally.evals
+	fmt.Printf("c52: honest leg done: %d cases, %.1fs\n", honestEvals, time.Since(t0).Seconds())
 
 	// ---- faults ----
 	var fgroups []c52Group
@@ -1173,6 +1220,7 @@ func TestVerif_C52_ALTS(t *testing.T) {
 		c52Faults(tally, fgroups[i], frbs[i], fstep[i])
 	})
 	faultEvals := tally.evals - honestEvals
+	fmt.Printf("c52: fault leg done: %d cases, %.1fs\n", faultEvals, time.Since(t0).Seconds())
 
 	// ---- counter ----
 	var counterEvals, counterNontriv int64
